@@ -266,12 +266,15 @@ def gen_scenario(rng, dims=(1, 2, 3, 4, 5), fams=None, max_iters=600, refine=Non
     scn.update(par)
     # how the objective hands its value back: in the supplied holder, or in a fresh FunctionValue it returns
     scn["holder"] = "new" if rng.random() < 0.25 else "same"
+    # how the SolverParameters object is filled in (record.make_params)
+    u = rng.random()
+    scn["params_how"] = "ctor" if u < 0.6 else ("assign" if u < 0.9 else "positional")
     return scn
 
 
 def short(scn):
     """Compact description for evidence samples."""
-    d = {k: scn[k] for k in ("N", "box", "r", "eps", "iters", "m", "refine", "holder") if k in scn}
+    d = {k: scn[k] for k in ("N", "box", "r", "eps", "iters", "m", "refine", "holder", "params_how") if k in scn}
     d["fam"] = scn["obj"]["fam"] if "obj" in scn else scn.get("bench")
     if "pattern" in scn:
         d["pattern"] = scn["pattern"]
